@@ -3,6 +3,8 @@
 // check of an n-link reference chain (well-typed, or `dchain`: with an ill-typed last element)
 // against a recursive named type in a 256 KiB-stack thread.
 //   output: <verdict> steps=<n> rerun=<same|DIFF>
+// `achain`/`bigachain` cases: chains / cycles of n alias names (one-option disjunctions of a name),
+// also in the small-stack thread.
 // `seq ...` lines: a SEQUENCE of check_type calls on ONE TypeCheckContext and one PDFObjContext
 // (format: tc_common.rs / lean/Driver/C09Seq.lean); every step is also run ALONE (everything
 // decoded afresh, the registrations of the earlier steps performed, none of the earlier checks
@@ -63,6 +65,28 @@ fn dchain_line(n: usize, shape: &str) -> String {
         }
         s.push_str("n t R 1 0");
     }
+    s
+}
+
+/// `achain n kind` / `bigachain n kind`: n alias names a1 = Disjunct[a2], ..., a(n-1) = Disjunct[an]
+/// (one-option disjunctions of a name, no predicate, indirect allowed); an = Disjunct[z] with
+/// z = Integer (kind int), Disjunct[a1] (cyc) or Disjunct[an] (self); `n a1` checked on the
+/// integer 1 (twin of `achainCase` in lean/Driver/C09.lean).
+fn achain_line(n: usize, kind: &str) -> String {
+    let mut s = format!("c09 {} ", n + 1);
+    for i in 1 ..= n {
+        let t = if i < n {
+            format!("a{}", i + 1)
+        } else if kind == "cyc" {
+            "a1".to_string()
+        } else if kind == "self" {
+            format!("a{}", n)
+        } else {
+            "z".to_string()
+        };
+        s.push_str(&format!("a{} r - a dis 1 n {} ", i, t));
+    }
+    s.push_str("z r - a p i 0 n a1 I 1");
     s
 }
 
@@ -130,9 +154,16 @@ fn run_direct(line: &str) -> String {
         return run_seq_line(line)
     }
     let deep = w.len() == 3 && (w[0] == "dchain" || w[0] == "bigdchain");
-    if deep || (w.len() == 3 && (w[0] == "chain" || w[0] == "bigchain")) {
+    let alias = w.len() == 3 && (w[0] == "achain" || w[0] == "bigachain");
+    if deep || alias || (w.len() == 3 && (w[0] == "chain" || w[0] == "bigchain")) {
         let n: usize = w[1].parse().unwrap();
-        let l = if deep { dchain_line(n, w[2]) } else { chain_line(n, w[2] == "cyc") };
+        let l = if deep {
+            dchain_line(n, w[2])
+        } else if alias {
+            achain_line(n, w[2])
+        } else {
+            chain_line(n, w[2] == "cyc")
+        };
         // small stack: a recursive implementation would overflow (and kill the worker => crash:<rc>)
         let h = std::thread::Builder::new()
             .stack_size(256 * 1024)
